@@ -349,4 +349,15 @@ def adjust_only_when_needed(repo: Repo) -> RuleRun:
 
 adjust_only_when_needed.rule_id = "C08.ADJUST-ONLY-WHEN-NEEDED"
 
-RULES = [trig_domain, arg_pairing, affine_kinds, sign_flows, circumcentre, adjust_only_when_needed]
+def validity_tolerance(repo: Repo, prop: str = PROP, rule: str = "C08.VALIDITY-TOLERANCE") -> RuleRun:
+    from .. import tolerance
+
+    r = RuleRun(prop, rule, floor=2, what="the tests that decide whether an edge is written at all (Edge.is_valid: coincident ends; ArcEdgeBase.is_valid: collinear third point) are absolute, of a non-negative magnitude, against the library tolerance - not a squared length against the plain tolerance, not a signed quantity, not a relative band")
+    r.exhaustive = True
+    tolerance.check_functions(r, repo, ["items.edges.edge.Edge.is_valid", "items.edges.arcs.arc_base.ArcEdgeBase.is_valid"], scan_modules=("items.edges.arcs.arc_base", "items.edges.arcs.angle", "items.edges.arcs.origin", "items.edges.arcs.arc"))
+    return r
+
+
+validity_tolerance.rule_id = "C08.VALIDITY-TOLERANCE"
+
+RULES = [trig_domain, arg_pairing, affine_kinds, sign_flows, circumcentre, adjust_only_when_needed, validity_tolerance]
